@@ -143,14 +143,17 @@ ResBaseQ(op, a, b, n) ==
 \* have been repaired in the tree (status "fixed" in known_findings): a repaired deviation is transcribed as the ideal.
 TruncQ(x) == IF x[1] >= 0 THEN x[1] \div x[2] ELSE -((-x[1]) \div x[2])
 FloatForm(form, n) == form \in {"float", "np.float64", "np.float32"} \/ (form = "np.power" /\ ~RIsInt(n))
+\* np.float64 is a Python float; np.float32 is not, and still takes the integer branch (named deviation
+\* npfloat32_exponent_truncated)
+TruncDev(form) == IF form = "np.float32" THEN "npfloat32_exponent_truncated" ELSE "float_exponent_truncated"
 MachScaleE(e, n, form, fx) ==
-  IF FloatForm(form, n) /\ "float_exponent_truncated" \notin fx
-  THEN R(TruncQ(RMul(RInt(e[1]), n)), e[2])                         \* before 3073bfc: Fraction(int(num*float), den)
+  IF FloatForm(form, n) /\ TruncDev(form) \notin fx
+  THEN R(TruncQ(RMul(RInt(e[1]), n)), e[2])                         \* Fraction(int(num*float), den)  (before 3073bfc for every float)
   ELSE RMul(e, n)                                                   \* pairs, ints, Fractions; floats via the rational they denote
 MachPowEx(ex, n, form, fx) ==
   Cancel(ExDropZero([i \in DOMAIN ex |-> [u |-> ex[i].u, e |-> MachScaleE(ex[i].e, n, form, fx)]]))
 PowTags(a, n, form, fx) ==
-  IF ~ExSame(MachPowEx(NEx(a), n, form, fx), Cancel(ExScale(NEx(a), n))) THEN {"float_exponent_truncated"} ELSE {}
+  IF ~ExSame(MachPowEx(NEx(a), n, form, fx), Cancel(ExScale(NEx(a), n))) THEN {TruncDev(form)} ELSE {}
 
 \* transcription of operator dispatch when the LEFT operand is a NumPy number: ndarray.__op__ hands the operation to
 \* Quantity.__array_ufunc__; before a4bb9e4 its default branch read inputs[0].magnitude (named deviation
